@@ -29,8 +29,9 @@ PARTIAL = ['C02_parse_unparse_partial / C02_items_simulation_partial / C02_white
            'C02_tree_whitespace_irrelevant2_partial: the same for the EXTENDED grammar of coq/Doc/DocGrammar2.v = the core '
            'grammar plus (e1) environments \\begin{name} args body \\end{name} (known to the context or covered by its '
            'unknown-environment fallback, mandatory brace arguments, body in math mode when declared so, whitespace allowed '
-           'between \\begin / \\end and the brace). '
-           'NOT covered by any theorem (only by the differential correspondence and the structure oracle): ' + """a paragraph break followed by indentation or written directly after a control word / comment, a comment ending at the end of input, optional star / bracket arguments, single-token arguments, whitespace or comments before an argument, specials other than the paragraph break, verbatim (\\verb, verbatim environments, verbatim argument kind)"""]
+           'between \\begin / \\end and the brace), (e3) the specials sequences of the context (longest match, with mandatory '
+           'brace arguments if declared). '
+           'NOT covered by any theorem (only by the differential correspondence and the structure oracle): ' + """a paragraph break followed by indentation or written directly after a control word / comment, a comment ending at the end of input, optional star / bracket arguments, single-token arguments, whitespace or comments before an argument, verbatim (\\verb, verbatim environments, verbatim argument kind)"""]
 REFUTED = []
 CASE_TIMEOUT = 10.0
 case_from_desc = None
